@@ -18,10 +18,11 @@ import (
 // concatenation law split at codon Cut), "frames" (TranslateReadingFrames(Seq)),
 // "amino" (AminoName on every byte of Seq).
 type C14Case struct {
-	Kind string `json:"kind"`
-	Dst  gen.B  `json:"dst"`
-	Seq  gen.B  `json:"seq"`
-	Cut  int    `json:"cut"`
+	Kind  string `json:"kind"`
+	Dst   gen.B  `json:"dst"`
+	Seq   gen.B  `json:"seq"`
+	Cut   int    `json:"cut"`
+	Spare int    `json:"spare,omitempty"` // capacity of dst, see sentinelDst
 }
 
 func genC14(t *rapid.T, thorough bool) C14Case {
@@ -45,6 +46,7 @@ func genC14(t *rapid.T, thorough bool) C14Case {
 		c.Seq[rapid.IntRange(0, n-1).Draw(t, "badpos")] = rapid.Byte().Draw(t, "badbyte")
 	}
 	c.Dst = gen.B(rapid.SliceOfN(rapid.Byte(), 0, 5).Draw(t, "dst"))
+	c.Spare = rapid.IntRange(0, 3).Draw(t, "spare")
 	c.Cut = rapid.IntRange(0, n/3).Draw(t, "cut")
 	return c
 }
@@ -131,7 +133,7 @@ func checkC14(c C14Case, o *Obs) error {
 	o.ClassIf(!validDNA(seq), "invalid byte")
 	o.ClassIf(lower23, "lower in pos 2/3")
 	o.ClassIf(len(c.Dst) > 0, "non-empty dst")
-	buf := sentinelDst(c.Dst, len(seq)/3)
+	buf := sentinelDst(c.Dst, len(seq)/3, c.Spare)
 	var got []byte
 	p := catch(func() { got = sequtil.Translate(buf, seq) })
 	if !bytes.Equal(seq, seqCopy) {
@@ -158,7 +160,7 @@ func checkC14(c C14Case, o *Obs) error {
 	if !bytes.Equal(append(x, y...), want) {
 		return fmt.Errorf("Translate(x)+Translate(y) = %q+%q differs from Translate(x+y) = %q (x=%q y=%q)", x, y, want, seq[:cut], seq[cut:])
 	}
-	// appending the second half to the first translation
+	// appending the second half to the first translation (whatever capacity that result has)
 	z := sequtil.Translate(sequtil.Translate(nil, seq[:cut]), seq[cut:])
 	if !bytes.Equal(z, want) {
 		return fmt.Errorf("Translate(Translate(nil,x),y) = %q, want %q", z, want)
@@ -192,7 +194,7 @@ func exhaustiveC14(thorough bool, emit func(C14Case) bool) {
 				return
 			}
 			emb := append(append([]byte("atG"), cod...), "Tga"...)
-			if !emit(C14Case{Kind: "translate", Seq: emb, Dst: gen.B("M"), Cut: 1 + cs%2}) {
+			if !emit(C14Case{Kind: "translate", Seq: emb, Dst: gen.B("M"), Cut: 1 + cs%2, Spare: (i + cs) % 4}) {
 				return
 			}
 		}
@@ -204,6 +206,16 @@ func exhaustiveC14(thorough bool, emit func(C14Case) bool) {
 			cod[pos] = byte(b)
 			if !emit(C14Case{Kind: "translate", Seq: cod}) {
 				return
+			}
+		}
+	}
+	// Every pair of bytes in two codon positions (includes every valid two-byte UTF-8 sequence).
+	for a := 0; a < 256; a++ {
+		for b := 0; b < 256; b++ {
+			for _, cod := range [][]byte{{byte(a), byte(b), 'G'}, {'a', byte(a), byte(b)}} {
+				if !emit(C14Case{Kind: "translate", Seq: cod}) {
+					return
+				}
 			}
 		}
 	}
